@@ -14,7 +14,8 @@
                                                    child current, as the Go panic does)
   RequireCPU / requireCPU              Frame.requireCPU   (uint64 wrap-around in used + n)
   RequireMem / requireMem              Frame.requireMem
-  ReleaseMem                           Frame.releaseMem   (guard hard.Memory > 0; panic on underflow)
+  ReleaseMem                           releaseStack       (guard hard.Memory > 0; cascades to the parent,
+                                                          panics only at the outermost context; 8007e69)
   SetStopLevel                         Frame.setStop
   Due                                  Frame.due
   TerminateContext                     no-op unless status = live; else status := killed + panic
@@ -163,6 +164,22 @@ def pop (s : St) : St × Outcome :=
       | (p2, o) => (⟨s.cur, p2 :: ps⟩, o)
     | (p1, o) => (⟨s.cur, p1 :: ps⟩, o)
 
+/-- ReleaseMem on the stack `f :: rest` since commit 8007e69: a context that is asked to release more
+than it holds gives back what it has (its counter drops to 0) and passes the rest to its parent
+(`m.parent.ReleaseMem`), which does the same; a context without hard memory limit ignores the
+release (and thereby ends the cascade); only the outermost context (`parent == nil`), if it is
+memory-limited and still cannot cover the amount, panics — with the contexts above it already drained. -/
+def releaseStack (f : Frame) : List Frame → BitVec 64 → (Frame × List Frame) × Outcome
+  | [], n => (((f.releaseMem n).1, []), (f.releaseMem n).2)
+  | p :: ps, n =>
+    if BitVec.ult 0#64 f.hard.Memory then
+      if BitVec.ule n f.used.Memory then
+        (({ f with used := { f.used with Memory := f.used.Memory - n } }, p :: ps), .ok)
+      else
+        let r := releaseStack p ps (n - f.used.Memory)
+        (({ f with used := { f.used with Memory := 0#64 } }, r.1.1 :: r.1.2), r.2)
+    else ((f, p :: ps), .ok)
+
 def onCur (s : St) (r : Frame × Outcome) : St × Outcome := (⟨r.1, s.parents⟩, r.2)
 
 /-- `terminationResource` recorded in a ContextTerminationError (commit 0426709): which hard limit
@@ -204,7 +221,8 @@ def step (s : St) : Op → St × Outcome
   | .pop => pop s
   | .reqCpu n => onCur s (s.cur.requireCPU n)
   | .reqMem n => onCur s (s.cur.requireMem n)
-  | .relMem n => onCur s (s.cur.releaseMem n)
+  | .relMem n => ((⟨(releaseStack s.cur s.parents n).1.1, (releaseStack s.cur s.parents n).1.2⟩ : St),
+                  (releaseStack s.cur s.parents n).2)
   | .stop l => onCur s (s.cur.setStop l)
   | .due => (s, .ok)
 
